@@ -26,7 +26,11 @@ func (ob *Obligation) smtText(models bool, mode string) string {
 	}
 	sb.WriteString("(set-logic ALL)\n")
 	fmt.Fprintf(&sb, "; obligation %s (%s)\n; kind %s at %s\n; %s\n", ob.Name, mode, ob.Kind, ob.Pos, strings.ReplaceAll(ob.Desc, "\n", " "))
+	tA := time.Now()
 	hyps := x.relevantHyps(ob)
+	tRel += time.Since(tA).Seconds()
+	tB := time.Now()
+	defer func() { tRest += time.Since(tB).Seconds() }()
 	switch mode {
 	case "cover":
 		memo := map[*Term]bool{}
@@ -41,15 +45,30 @@ func (ob *Obligation) smtText(models bool, mode string) string {
 		var dropped int
 		hyps, dropped = c.groundInstances(hyps, ob.Goal, 3)
 		fmt.Fprintf(&sb, "; ground instantiation: %d quantified items replaced by instances\n", dropped)
+	case "small":
+		// model extraction in a small scope: sequences are short and recursive spec functions are
+		// unfolded from small literals, so that the model is exact for them
+		var dropped int
+		c.seedSmall = true
+		hyps, dropped = c.groundInstances(append(append([]*Term{}, hyps...), ob.SmallScope...), ob.Goal, 4)
+		c.seedSmall = false
+		fmt.Fprintf(&sb, "; small-scope ground instantiation: %d quantified items replaced by instances\n", dropped)
 	}
-	if mode == "ground" {
+	if mode == "ground" || mode == "small" {
 		// hyps already contain the decomposed negated goal
-		c.Emit(&sb, hyps)
+		if models {
+			c.Emit(&sb, append(append([]*Term{}, hyps...), ob.GetValues...))
+		} else {
+			c.Emit(&sb, hyps)
+		}
 		for _, h := range hyps {
 			fmt.Fprintf(&sb, "(assert %s)\n", c.Ref(h))
 		}
 	} else {
 		roots := append(append([]*Term{}, hyps...), ob.Goal)
+		if models {
+			roots = append(roots, ob.GetValues...)
+		}
 		c.Emit(&sb, roots)
 		for _, h := range hyps {
 			fmt.Fprintf(&sb, "(assert %s)\n", c.Ref(h))
@@ -73,6 +92,7 @@ func (ob *Obligation) smtText(models bool, mode string) string {
 
 var genMu sync.Mutex // term construction (ground instantiation) is not concurrent
 var genSeconds float64
+var tRel, tRest float64 // time in hypothesis selection / instantiation+printing (development aid)
 
 type solverSpec struct {
 	name string
@@ -258,25 +278,14 @@ func discharge(ob *Obligation, dir string, timeoutMs int, confirm bool) {
 	ob.Seconds = total
 	if groundSat || fullRes.verdict == "sat" {
 		ob.Verdict = "sat"
-		// re-run with model production (probe values when available)
-		mfile := gfile
-		mmode := "ground"
-		if !groundSat {
-			mfile, mmode = file, "full"
+		ob.Solver = "z3-new"
+		ob.SatMode = "full"
+		if groundSat {
+			ob.SatMode = "ground"
+			ob.Solver += "/ground"
+			ob.File = gfile
 		}
-		genMu.Lock()
-		mtext := ob.smtText(true, mmode)
-		genMu.Unlock()
-		mfile = strings.TrimSuffix(mfile, ".smt2") + ".model.smt2"
-		if err := os.WriteFile(mfile, []byte(mtext), 0o644); err == nil {
-			r := runSolver(context.Background(), solvers[0], mfile, timeoutMs)
-			ob.Model = r.output
-			ob.Solver = r.solver
-			if groundSat {
-				ob.Solver += "/ground"
-			}
-			ob.File = mfile
-		}
+		// the model is extracted later (replay), by re-running this query with get-value probes
 		return
 	}
 	ob.Verdict = fullRes.verdict
